@@ -5,7 +5,10 @@ Property theorems only.  Model: Rc/Model/Reenc.lean (the owned
 `Unimplemented` / `Invalid` arms of `PathAttribute::compose` / `compose_len`
 after the repairs F7 and F8, the three re-encoding routes, the NLRI re-add after
 the repair of K7), on top of Rc/Model/Attr.lean (C04) and Rc/Model/Nlri.lean
-(C05).  Lemmas: Rc/Lemmas/Reenc.lean.  Four-octet session, no ADD-PATH.
+(C05).  Lemmas: Rc/Lemmas/Reenc.lean.  The first part is for a four-octet
+session; the last section treats two-octet sessions (`reencode_two_octet_partial`,
+`two_octet_fails` = known finding K9, `two_octet_widened_*`).  ADD-PATH does not
+touch the attributes; the NLRI clause `reencode_nlri` covers it.
 
 "Accepted" enters as `decAll true n sec = .ok ds`: the attribute section parses
 (that is what `UpdateMessage::parse` checks of it, besides the MP length rules).
@@ -518,5 +521,258 @@ theorem three_routes_agree (sec : Bytes) (ds : List (Outcome Decoded))
 /-- a section with an unrecognised attribute (EXTENDED_LEN on two octets), a
 malformed ORIGIN and a well-formed MED satisfies the hypotheses -/
 example : ∃ ds, decAll true 16 [0xD0, 99, 0, 2, 0xAA, 0xBB, 0x40, 1, 0, 0x80, 4, 4, 0, 0, 0, 7] = .ok ds := ⟨_, rfl⟩
+
+/-! ## two-octet sessions (`SessionConfig::legacy()`)
+
+`pdu.path_attributes()` reads AS_PATH and AGGREGATOR two octets wide there;
+`PathAttribute::compose` knows no session and writes them four octets wide.
+So the property holds in such a session exactly as far as the section holds
+neither (`reencode_two_octet_partial`), fails otherwise (`two_octet_fails`:
+known finding K9, request lines `re2w`), and what the code does instead is
+proved as `two_octet_widened_path` / `_aggregator`: the octets written are the
+four-octet form of the same path / aggregator. -/
+
+/-- no AS_PATH and no AGGREGATOR, over the header walk of the section -/
+def widthFree : Nat → Bytes → Bool
+  | 0, _ => true
+  | f + 1, bs =>
+    match splitAttr bs with
+    | none => true
+    | some (_, tc, _, r) => tc.toNat != 2 && tc.toNat != 7 && widthFree f r
+
+
+/-! ### helper facts (private) -/
+
+private theorem validate_width (c : Nat) (v : Bytes) (h2 : c ≠ 2) (h7 : c ≠ 7) :
+    validate c false v = validate c true v := by
+  unfold validate; simp [h2, h7]
+
+private theorem parseValue_width (c : Nat) (v : Bytes) (h2 : c ≠ 2) (h7 : c ≠ 7) :
+    parseValue c false v = parseValue c true v := by
+  unfold parseValue; simp [h2, h7]
+
+private theorem decAttr_width {bs : Bytes} {fl tc : UInt8} {v r : Bytes} (hs : splitAttr bs = some (fl, tc, v, r))
+    (h2 : tc.toNat ≠ 2) (h7 : tc.toNat ≠ 7) :
+    decAttr false bs = decAttr true bs ∧ ∃ od, decAttr true bs = .ok (od, r) := by
+  simp only [decAttr, parseWire, hs, validate_width _ v h2 h7]
+  cases hv : validate tc.toNat true v with
+  | none => simp [toOwned]
+  | some b => cases b <;> simp [toOwned, parseValue_width _ v h2 h7]
+
+private theorem decAll_width : ∀ (f : Nat) (bs : Bytes), widthFree f bs = true → decAll false f bs = decAll true f bs
+  | 0, bs, _ => by simp [decAll]
+  | f + 1, bs, h => by
+    unfold decAll
+    by_cases he : bs.isEmpty = true
+    · simp [he]
+    · simp only [he, Bool.false_eq_true, if_false]
+      cases hs : splitAttr bs with
+      | none => simp [decAttr, parseWire, hs]
+      | some q =>
+        obtain ⟨fl, tc, v, r⟩ := q
+        unfold widthFree at h
+        simp only [hs, Bool.and_eq_true, bne_iff_ne, ne_eq] at h
+        obtain ⟨e1, od, e2⟩ := decAttr_width hs h.1.1 h.1.2
+        rw [e1, e2]
+        simp only [decAll_width f r h.2]
+
+/-- the codes of what a width-free section decodes to -/
+private theorem codes_of_free : ∀ (f : Nat) (bs : Bytes) (ds : List (Outcome Decoded)), bs.length ≤ f → widthFree f bs = true →
+    decAll true f bs = .ok ds → ∀ d, Outcome.ok d ∈ ds → codeOf d ≠ 2 ∧ codeOf d ≠ 7
+  | 0, bs, ds, _, _, h, d, hd => by
+    unfold decAll at h
+    split at h
+    · cases h; simp at hd
+    · cases h
+  | f + 1, bs, ds, hf, hw, h, d, hd => by
+    unfold decAll at h
+    by_cases he : bs.isEmpty = true
+    · simp only [he, if_true, Outcome.ok.injEq] at h
+      subst h; simp at hd
+    · simp only [he, Bool.false_eq_true, if_false] at h
+      cases hdec : decAttr true bs with
+      | err => simp [hdec] at h
+      | panic => simp [hdec] at h
+      | ok p =>
+        obtain ⟨od0, r⟩ := p
+        simp only [hdec] at h
+        cases hr : decAll true f r with
+        | err => simp [hr] at h
+        | panic => simp [hr] at h
+        | ok l =>
+          simp only [hr, Outcome.ok.injEq] at h
+          subst h
+          obtain ⟨fl, tc, v, hs, hcase⟩ := decAttr_cases hdec
+          obtain ⟨_, hlen, _, _⟩ := splitAttr_spec hs
+          unfold widthFree at hw
+          simp only [hs, Bool.and_eq_true, bne_iff_ne, ne_eq] at hw
+          rcases List.mem_cons.mp hd with hd | hd
+          · subst hd
+            rcases hcase with ⟨hv, ho⟩ | ⟨_, ho⟩ | ⟨_, ho⟩
+            · obtain ⟨a, hp, _, hcode, _⟩ := typed_spec tc.toNat v hv
+              simp only [hp, Outcome.ok.injEq] at ho
+              subst ho
+              simp only [codeOf, hcode]; exact hw.1
+            · cases ho; exact hw.1
+            · cases ho; exact hw.1
+          · exact codes_of_free f r l (by split at hlen <;> omega) hw.2 hr d hd
+
+private theorem free_of_walk : ∀ (f : Nat) (bs : Bytes) (ws : List (UInt8 × UInt8 × Bytes)), splitAll f bs = some ws →
+    (∀ w ∈ ws, w.2.1.toNat ≠ 2 ∧ w.2.1.toNat ≠ 7) → widthFree f bs = true
+  | 0, _, _, _, _ => rfl
+  | f + 1, bs, ws, h, hc => by
+    unfold splitAll at h
+    unfold widthFree
+    by_cases he : bs.isEmpty = true
+    · have : bs = [] := by simpa using he
+      subst this; simp [splitAttr]
+    · simp only [he, Bool.false_eq_true, if_false] at h
+      cases hs : splitAttr bs with
+      | none => rfl
+      | some q =>
+        obtain ⟨fl, tc, v, r⟩ := q
+        simp only [hs] at h
+        cases hr : splitAll f r with
+        | none => simp [hr] at h
+        | some l =>
+          simp only [hr, Option.some.injEq] at h
+          subst h
+          have h1 := hc (fl, tc, v) (by simp)
+          simp only [Bool.and_eq_true, bne_iff_ne, ne_eq]
+          exact ⟨⟨h1.1, h1.2⟩, free_of_walk f r l hr (fun w hw => hc w (by simp [hw]))⟩
+
+private theorem wireAll_codes : ∀ (owned : List Decoded) (ws : List (UInt8 × UInt8 × Bytes)), WireAll owned ws →
+    (∀ d ∈ owned, codeOf d ≠ 2 ∧ codeOf d ≠ 7) → ∀ w ∈ ws, w.2.1.toNat ≠ 2 ∧ w.2.1.toNat ≠ 7
+  | [], [], _, _ => by simp
+  | [], _ :: _, h, _ => by simp [WireAll] at h
+  | _ :: _, [], h, _ => by simp [WireAll] at h
+  | d :: ds, w :: ws, h, hc => by
+    simp only [WireAll] at h
+    intro x hx
+    rcases List.mem_cons.mp hx with rfl | hx
+    · have := hc d (by simp)
+      rw [h.1.1]; exact this
+    · exact wireAll_codes ds ws h.2 (fun d hd => hc d (by simp [hd])) x hx
+
+
+private theorem allOk_map : ∀ (ds : List (Outcome Decoded)) (owned : List Decoded), allOk ds = .ok owned →
+    ds = owned.map .ok
+  | [], owned, h => by simp [allOk] at h; subst h; rfl
+  | .ok d :: xs, owned, h => by
+    simp only [allOk] at h
+    cases hx : allOk xs with
+    | ok l => simp only [hx, Outcome.ok.injEq] at h; subst h; simp [allOk_map xs l hx]
+    | err => simp [hx] at h
+    | panic => simp [hx] at h
+  | .err :: _, _, h => by simp [allOk] at h
+  | .panic :: _, _, h => by simp [allOk] at h
+
+/-- *the property in a two-octet session, for sections without AS_PATH and
+AGGREGATOR* (AS4_PATH, AS4_AGGREGATOR and everything else included – after the
+repair F30 AS4_PATH is read four octets wide in every session): every
+`to_owned()` succeeds, composing succeeds, `compose_len` summed is the number of
+octets written, and **the same two-octet session** decodes the octets written to
+the same owned attributes, one for one; the independent header walk finds the
+codes, flags and values `WireOk` prescribes; the map route and the builder route
+agree with the direct one as in `three_routes_agree`. -/
+theorem reencode_two_octet_partial (sec : Bytes) (ds : List (Outcome Decoded))
+    (hfree : widthFree sec.length sec = true)
+    (hacc : decAll false sec.length sec = .ok ds) (hlen : sec.length ≤ 43690) :
+    ∃ owned out, ownedListW false sec = .ok owned ∧ directW false sec = .ok out ∧ lenList owned = .ok out.length ∧
+      decAll false out.length out = .ok (owned.map fun d => .ok (renorm d)) ∧
+      (∃ ws, splitAll out.length out = some ws ∧ WireAll owned ws) ∧
+      ownedListW false sec = ownedList sec ∧ directW false sec = direct sec ∧ mapOfW false sec = mapOf sec ∧
+      viaMapW false sec = viaMap sec ∧ viaBuilderW false sec = viaBuilder sec := by
+  have hw := decAll_width sec.length sec hfree
+  have hacc4 : decAll true sec.length sec = .ok ds := by rw [← hw]; exact hacc
+  obtain ⟨owned, out, i1, i2, i3, i4, ws, i5, i6⟩ := reencode_attrs sec ds hacc4 hlen
+  have e1 : ownedListW false sec = ownedList sec := by simp [ownedListW, ownedList, hw]
+  have e2 : directW false sec = direct sec := by simp [directW, direct, e1]
+  have e3 : mapOfW false sec = mapOf sec := by simp [mapOfW, mapOf, hw]
+  have e4 : viaMapW false sec = viaMap sec := by simp [viaMapW, viaMap, e3]
+  have e5 : viaBuilderW false sec = viaBuilder sec := by simp [viaBuilderW, viaBuilder, e3]
+  -- the octets written hold no AS_PATH / AGGREGATOR either: the same session reads them the same way
+  have hds : ds = owned.map .ok := by
+    simp only [ownedList, hacc4] at i1
+    exact allOk_map ds owned i1
+  have hcodes : ∀ d ∈ owned, codeOf d ≠ 2 ∧ codeOf d ≠ 7 := fun d hd =>
+    codes_of_free sec.length sec ds (Nat.le_refl _) hfree hacc4 d (by rw [hds]; exact List.mem_map.mpr ⟨d, hd, rfl⟩)
+  have hfo : widthFree out.length out = true :=
+    free_of_walk out.length out ws i5 (wireAll_codes owned ws i6 hcodes)
+  refine ⟨owned, out, by rw [e1]; exact i1, by rw [e2]; exact i2, i3, ?_, ⟨ws, i5, i6⟩, e1, e2, e3, e4, e5⟩
+  rw [decAll_width out.length out hfo]; exact i4
+
+/-- an ORIGIN, an AS4_PATH with one AS, an AS4_AGGREGATOR and an unrecognised
+attribute satisfy the hypotheses -/
+example : widthFree 27 [0x40, 1, 1, 0, 0xC0, 17, 6, 2, 1, 0, 1, 0xfd, 0xe8, 0xC0, 18, 8, 0, 1, 0xfd, 0xe8, 10, 0, 0, 1, 0xC0, 99, 0] = true ∧
+    ∃ ds, decAll false 27 [0x40, 1, 1, 0, 0xC0, 17, 6, 2, 1, 0, 1, 0xfd, 0xe8, 0xC0, 18, 8, 0, 1, 0xfd, 0xe8, 10, 0, 0, 1, 0xC0, 99, 0] = .ok ds :=
+  ⟨rfl, _, rfl⟩
+
+/-- the statement one would like for every section a two-octet session accepts -/
+def TwoOctetStatement : Prop :=
+  ∀ (sec : Bytes) (ds : List (Outcome Decoded)), decAll false sec.length sec = .ok ds → sec.length ≤ 43690 →
+    ∃ owned out, ownedListW false sec = .ok owned ∧ directW false sec = .ok out ∧
+      decAll false out.length out = .ok (owned.map fun d => .ok (renorm d))
+
+/-- K9: AS_PATH `AS_SEQUENCE(65000)` received two octets wide is written as
+`02 01 00 00 fd e8`; the two-octet session reads that as a malformed AS_PATH
+(an `Invalid` attribute), not as the path received. -/
+theorem two_octet_fails : ¬ TwoOctetStatement := by
+  intro h
+  obtain ⟨owned, out, h1, h2, h3⟩ := h [0x40, 2, 4, 2, 1, 0xfd, 0xe8] _ rfl (by decide)
+  have e1 : ownedListW false [0x40, 2, 4, 2, 1, 0xfd, 0xe8] = .ok [.typed (.asPath [.asn 65000])] := rfl
+  have e2 : directW false [0x40, 2, 4, 2, 1, 0xfd, 0xe8] = .ok [0x40, 2, 6, 2, 1, 0, 0, 0xfd, 0xe8] := rfl
+  rw [e1] at h1; cases h1
+  rw [e2] at h2; cases h2
+  have e3 : decAll false 9 [0x40, 2, 6, 2, 1, 0, 0, 0xfd, 0xe8] = .ok [.ok (.invalid 0x40 2 [2, 1, 0, 0, 0xfd, 0xe8])] := rfl
+  simp only [List.length_cons, List.length_nil] at h3
+  rw [e3] at h3
+  simp [renorm] at h3
+
+/-- *what the code does with an AS_PATH of a two-octet session*: the value is
+read two octets wide into a hop path `h`; composing writes `w`, which is a
+well-formed **four-octet** AS_PATH whose hops are those of `h` (`Hop.norm true`
+only marks segment hops as read from a four-octet path, which `==` on `HopPath`
+does not see, C13). So a four-octet reader of the re-encoding sees the path
+that was received. -/
+theorem two_octet_widened_path (v : Bytes) (hv : validate 2 false v = some true) :
+    ∃ h w, parseValue 2 false v = .ok (.asPath h) ∧ composeValue (.asPath h) = .ok w ∧
+      validate 2 true w = some true ∧ parseValue 2 true w = .ok (.asPath (h.map (Hop.norm true))) := by
+  have hp : pathValid false v = true := by simpa [validate] using hv
+  have hc : check false v = .ok () := by
+    unfold pathValid at hp
+    cases hcv : check false v with
+    | ok u => cases u; rfl
+    | err => simp [hcv] at hp
+    | panic => simp [hcv] at hp
+  obtain ⟨ss, hss, _, _, hh, _⟩ := wire_view false v hc
+  have hwf : WfHops (hopsOfSegs ss) = true := wfHops_hopsOfSegs false ss hss
+  obtain ⟨w, c1, _, c3, c4⟩ := value_spec (.asPath (hopsOfSegs ss)) (by simpa [WfAttrW] using hwf)
+  exact ⟨hopsOfSegs ss, w, by simp [parseValue, parsePath, hc, hh], c1, by simpa [TypedAttr.code] using c3,
+    by simpa [TypedAttr.code, TypedAttr.norm] using c4⟩
+
+example : validate 2 false [2, 2, 0xfd, 0xe8, 0, 1, 1, 1, 0, 7] = some true := rfl
+
+/-- the same for AGGREGATOR: six octets (two-octet AS, IPv4 address) are read,
+eight are written, and a four-octet reader finds the same AS number and
+address. -/
+theorem two_octet_widened_aggregator (v : Bytes) (hv : validate 7 false v = some true) :
+    ∃ asn addr w, asn < 65536 ∧ parseValue 7 false v = .ok (.aggregator asn addr) ∧
+      composeValue (.aggregator asn addr) = .ok w ∧ w.length = 8 ∧
+      validate 7 true w = some true ∧ parseValue 7 true w = .ok (.aggregator asn addr) := by
+  have hl : v.length = 6 := by simpa [validate] using hv
+  match v, hl with
+  | [a, b, c, d, e, f], _ =>
+    have h16 : rd16 [a, b, c, d, e, f] = some (a.toNat * 256 + b.toNat, [c, d, e, f]) := rfl
+    obtain ⟨addr, r, h32⟩ := rd32_some (v := [c, d, e, f]) (by simp)
+    have haddr := (rd32_spec h32)
+    have hasn : a.toNat * 256 + b.toNat < 65536 := by have := a.toNat_lt; have := b.toNat_lt; omega
+    obtain ⟨w, c1, c2, c3, c4⟩ := value_spec (.aggregator (a.toNat * 256 + b.toNat) addr)
+      (by simp only [WfAttrW, u32ok, Bool.and_eq_true, decide_eq_true_eq]; exact ⟨by omega, by omega⟩)
+    refine ⟨_, addr, w, hasn, by simp [parseValue, h16, h32], c1, ?_, by simpa [TypedAttr.code] using c3,
+      by simpa [TypedAttr.code, TypedAttr.norm] using c4⟩
+    simp only [composeValue, Outcome.ok.injEq] at c1
+    subst c1; simp
+
 
 end Rc.Thm.C07
